@@ -14,6 +14,7 @@ import (
 	"os"
 	"os/exec"
 	"path/filepath"
+	"runtime/pprof"
 	"sort"
 	"strconv"
 	"strings"
@@ -44,6 +45,7 @@ func envOr(k, d string) string {
 type TierOpts struct {
 	Preempt     int   `json:"preempt"`
 	PermuteMaps bool  `json:"permute_maps"`
+	SelectFork  bool  `json:"select_fork"`
 	MaxPaths    int   `json:"max_paths"`
 	TimeoutS    int   `json:"timeout_s"`
 	QueryMS     int   `json:"query_ms"`
@@ -214,7 +216,7 @@ func runHarness(ld *loaded, prop string, h HarnessSpec, tier int, known map[stri
 	cfg := &interp.Config{
 		Prog: ld.prog, Target: ld.target, Sizes: types.SizesFor("gc", "amd64"),
 		Z3: envOr("VX_Z3", "/usr/bin/z3"), QueryMS: opts.QueryMS, Workers: workers(),
-		MaxSteps: opts.MaxSteps, MaxPaths: opts.MaxPaths, Preempt: opts.Preempt, PermuteMaps: opts.PermuteMaps,
+		MaxSteps: opts.MaxSteps, MaxPaths: opts.MaxPaths, Preempt: opts.Preempt, PermuteMaps: opts.PermuteMaps, SelectFork: opts.SelectFork,
 		Known: known, Tier: tier, StopAtFirstViolation: true,
 	}
 	if opts.TimeoutS > 0 {
@@ -649,6 +651,7 @@ func cmdRun(args []string) {
 	tier := fs.Int("tier", 0, "0 quick 1 thorough")
 	preempt := fs.Int("preempt", 0, "")
 	permute := fs.Bool("permute", false, "")
+	selFork := fs.Bool("select-fork", false, "")
 	maxPaths := fs.Int("max-paths", 0, "")
 	w := fs.Int("workers", 16, "")
 	knownS := fs.String("known", "", "comma separated known-finding ids")
@@ -667,7 +670,7 @@ func cmdRun(args []string) {
 		}
 	}
 	cfg := &interp.Config{Prog: ld.prog, Target: ld.target, Sizes: types.SizesFor("gc", "amd64"), Z3: envOr("VX_Z3", "/usr/bin/z3"),
-		Workers: *w, MaxPaths: *maxPaths, Preempt: *preempt, PermuteMaps: *permute, Known: known, Tier: *tier, StopAtFirstViolation: true}
+		Workers: *w, MaxPaths: *maxPaths, Preempt: *preempt, PermuteMaps: *permute, SelectFork: *selFork, Known: known, Tier: *tier, StopAtFirstViolation: true}
 	cfg.Prepare()
 	entry, err := interp.Entry(cfg, fn)
 	if err != nil {
@@ -727,6 +730,11 @@ func cmdReplay(args []string) {
 }
 
 func main() {
+	if pf := os.Getenv("VX_PROF"); pf != "" {
+		f, _ := os.Create(pf)
+		pprof.StartCPUProfile(f)
+		defer pprof.StopCPUProfile()
+	}
 	if len(os.Args) < 2 {
 		fatal(2, "usage: vx check|run|replay|selftest ...")
 	}
